@@ -10,4 +10,7 @@ mcScriptD4 == << <<"build", "">>, <<"edit", "s", "S1">>, <<"edit", "s2", "S0">>,
 \* the D4 history continued: the table left behind by the restoring build is used again
 mcScriptD4long == mcScriptD4 \o << <<"build", "">>, <<"edit", "s", "S1">>, <<"build", "">>, <<"clean", "">>, <<"edit", "s", "S0">>, <<"build", "">> >>
 mcScriptD4fail == << <<"rules", 2>> >> \o mcScriptD4long
+\* the restoring build fails because of the unrelated rule; later builds run with the rule removed again
+mcScriptD4fail2 == << <<"build", "">>, <<"edit", "s", "S1">>, <<"edit", "s2", "S0">>, <<"build", "">>, <<"clean", "p2">>, <<"edit", "s", "S0">>,
+                      <<"rules", 2>>, <<"build", "">>, <<"rules", 1>>, <<"build", "">>, <<"edit", "s", "S1">>, <<"build", "">> >>
 ====
